@@ -50,6 +50,14 @@ func execV6(op string, args []string) string {
 	case "v6enc":
 		m := mkMsg6(parseSx(args[0]))
 		return "ok " + hx(m.ToBytes())
+	case "v6trip":
+		m := mkMsg6(parseSx(args[0]))
+		d, err := dhcpv6.FromBytes(m.ToBytes())
+		if err != nil {
+			return "err"
+		}
+		got := sxMsg6(d)
+		return "ok " + got + " norm=" + b01(got == dpnNormTerm(sxMsg6(m)))
 	case "v6optenc":
 		o := mkOpt6(parseSx(args[0]))
 		return fmt.Sprintf("ok %d %s", uint16(o.Code()), hx(o.ToBytes()))
@@ -85,6 +93,61 @@ func genOptWire6(r *Rng) (int, []byte, string) {
 	default:
 		return code, r.Bytes(r.Range(0, 40)), "random"
 	}
+}
+
+var dpnReFreshLabels = regexp.MustCompile(`L\(nil,\[([0-9a-f;-]*)\]\)`)
+
+// dpnEncodeNames: the RFC 1035 wire form of a list of names given as hex
+// strings (written here by hand: per name its dot-separated labels, each behind
+// its length octet, then the root label; the empty name is the root label).
+func dpnEncodeNames(hexNames []string) []byte {
+	var out []byte
+	for _, h := range hexNames {
+		name := string(unhx(h))
+		if name != "" {
+			for _, part := range strings.Split(name, ".") {
+				out = append(out, byte(len(part)))
+				out = append(out, part...)
+			}
+		}
+		out = append(out, 0)
+	}
+	return out
+}
+
+// dpnNormTerm: the term of a message with every FRESH label set (no original
+// bytes) replaced by its decoded form: same names, original = their wire form.
+// What a trip over the wire is specified to return (C02_roundtrip_fresh).
+func dpnNormTerm(term string) string {
+	return dpnReFreshLabels.ReplaceAllStringFunc(term, func(m string) string {
+		names := dpnReFreshLabels.FindStringSubmatch(m)[1]
+		var hs []string
+		if names != "" {
+			hs = strings.Split(names, ";")
+		}
+		return "L(" + hx(dpnEncodeNames(hs)) + ",[" + names + "])"
+	})
+}
+
+var dpnReAnyLabels = regexp.MustCompile(`L\(([0-9a-f]+|-|nil),\[([0-9a-f;-]*)\]\)`)
+
+// dpnLabelsFreshOrDecoded: every label set of the term is fresh or carries
+// exactly the wire form of its names (decoded and not edited since): the
+// domain of C02_roundtrip_fresh as far as label sets go.
+func dpnLabelsFreshOrDecoded(term string) bool {
+	for _, m := range dpnReAnyLabels.FindAllStringSubmatch(term, -1) {
+		if m[1] == "nil" {
+			continue
+		}
+		var hs []string
+		if m[2] != "" {
+			hs = strings.Split(m[2], ";")
+		}
+		if m[1] != hx(dpnEncodeNames(hs)) {
+			return false
+		}
+	}
+	return true
 }
 
 var reLabOrig = regexp.MustCompile(`L\([0-9a-f]*-?(nil)?,`)
@@ -139,6 +202,14 @@ func init() {
 				depth = r.Range(4, 40)
 			}
 			m := genMsg6(r, depth, loose)
+			if r.Chance(1, 4) {
+				// the whole trip, and whether it returns the normal form (fresh label sets decoded)
+				t := sxMsg6(m)
+				if strings.Contains(t, "L(nil,") {
+					tag += " fresh-labels"
+				}
+				return "v6trip " + t, []string{tag, "trip", fmt.Sprintf("depth<=%d", min(depth, 4))}
+			}
 			return "v6enc " + sxMsg6(m), []string{tag, fmt.Sprintf("depth<=%d", min(depth, 4))}
 		},
 		Exec:       execV6,
@@ -225,6 +296,12 @@ func oracleC02(r *Rng, n int, thorough bool, seeds []string) *OracleResult {
 			}
 			if !bytes.Equal(b, m2.ToBytes()) {
 				what = "re-encoding the decoded message gives different bytes"
+				return
+			}
+			// originals included: the decoded message is m with every fresh label set in
+			// its decoded form (names kept, original = their wire form), nothing else changed
+			if want, got := dpnNormTerm(sxMsg6(m)), sxMsg6(m2); dpnLabelsFreshOrDecoded(sxMsg6(m)) && want != got {
+				what, class = "FromBytes(ToBytes(m)) is not m with its fresh label sets decoded: "+firstDiff(want, got), "v6-roundtrip-labels"
 				return
 			}
 			// "as read by an independently written decoder": the RFC reading of
